@@ -72,7 +72,7 @@ class Worker:
     def start(self):
         env = dict(os.environ)
         env.setdefault("GOMAXPROCS", "2")
-        env.setdefault("GOGC", "300")
+        env.setdefault("GOGC", "100")
         self.proc = subprocess.Popen(self.args, stdin=subprocess.PIPE, stdout=subprocess.PIPE, stderr=subprocess.PIPE, text=True, bufsize=1, env=env)
         self.errbuf = []
         t = threading.Thread(target=self._drain, daemon=True)
@@ -268,6 +268,13 @@ def main():
 
     t0 = time.time()
     items = mod.items(args.tier)
+    seen_ids = set()
+    uniq = []
+    for it in items:
+        if it["id"] not in seen_ids:
+            seen_ids.add(it["id"])
+            uniq.append(it)
+    items = uniq
     if args.only:
         items = [it for it in items if args.only in it["id"]]
     import random
@@ -294,12 +301,60 @@ def main():
                 json.dump({k: os.path.join(VERIF, v) for k, v in ov.items()}, f)
             wargs += ["-overlay", ovf]
         item_timeout = getattr(mod, "ITEM_TIMEOUT", {"quick": 240, "thorough": 1800}).get(args.tier, 240)
+        covdir = os.path.join(tmpdir, "cov")
+        os.makedirs(covdir, exist_ok=True)
+        wargs += ["-covout", covdir]
         results = run_items(items, args.workers, wargs, item_timeout)
+        args.block_cov = merge_cov(covdir)
         race_bin = build_replay_race(tmpdir) if getattr(mod, "RACE_REPLAY", False) else None
         rc = finish(prop, args, mod, items, results, replay_bin, known, kmap, t0, seed, race_bin)
     finally:
         shutil.rmtree(tmpdir, ignore_errors=True)
     return rc
+
+
+def merge_cov(covdir):
+    """Union of the workers' block-coverage dumps: {func: {file, line, lines, hit}} (hit as a 0/1 string)."""
+    out = {}
+    for fn in sorted(os.listdir(covdir)):
+        try:
+            with open(os.path.join(covdir, fn)) as f:
+                c = json.load(f)
+        except Exception:
+            continue
+        for name, v in c.items():
+            o = out.get(name)
+            hit = v.get("hit") or []
+            if o is None:
+                out[name] = {"file": v.get("file", "").replace(REPO + "/", ""), "line": v.get("line", 0), "lines": v.get("lines") or [], "hit": [bool(h) for h in hit]}
+            else:
+                for k, h in enumerate(hit):
+                    if h and k < len(o["hit"]):
+                        o["hit"][k] = True
+    return out
+
+
+def cov_summary(prop, tier, cov, write=True):
+    """Per-file totals for the evidence file; the per-block detail goes to evidence/coverage/<prop>.<tier>.json."""
+    if not cov:
+        return None
+    files = {}
+    for name, v in cov.items():
+        if v["file"].endswith("_test.go") or not v["file"]:
+            continue
+        a = files.setdefault(v["file"], [0, 0])
+        a[0] += sum(1 for h in v["hit"] if h)
+        a[1] += len(v["hit"])
+    if write:
+        d = os.path.join(VERIF, "evidence", "coverage")
+        os.makedirs(d, exist_ok=True)
+        comp = {n: {"file": v["file"], "line": v["line"], "lines": v["lines"], "hit": "".join("1" if h else "0" for h in v["hit"])} for n, v in sorted(cov.items())}
+        with open(os.path.join(d, "%s.%s.json" % (prop, tier)), "w") as f:
+            json.dump(comp, f, separators=(",", ":"))
+    tot = [sum(a[0] for a in files.values()), sum(a[1] for a in files.values())]
+    return {"what": "basic blocks of /repo's packages (go/ssa) executed by the symbolic executor in this run, set-up (real Compile) and harness runs on all paths; detail per block in evidence/coverage/%s.%s.json; tools/coverage.py merges the checks and lists the blocks no check reaches" % (prop, tier),
+            "blocks_hit": tot[0], "blocks_total": tot[1],
+            "files": {f: "%d/%d" % (a[0], a[1]) for f, a in sorted(files.items()) if a[0]}}
 
 
 def snaps_equal(a, b):
@@ -525,6 +580,9 @@ def finish(prop, args, mod, items, results, replay_bin, known, kmap, t0, seed, r
         ],
     }
     ev["coverage"].update(extra)
+    bc = cov_summary(prop, args.tier, getattr(args, "block_cov", None), write=not args.no_evidence and not args.only)
+    if bc:
+        ev["coverage"]["block_coverage"] = bc
     if post_info:
         ev["coverage"]["post_check"] = post_info
     if extra_info:
